@@ -125,7 +125,7 @@ def run(case):
     if op == "listing":
         d = os.path.join(core.VERIF, ".work", "c20.%d" % os.getpid())
         os.makedirs(d, exist_ok=True)
-        fn = os.path.join(d, "listing.txt")
+        fn = core.fname(os.path.join(d, "listing.txt"))
         try:
             def q():
                 lines = []
